@@ -133,11 +133,6 @@ package group
 //@   ensures same-or-new: isnil(result1) ==> (old(lookup(name)) != nil ? same(result0, old(lookup(name))) && same(result0.clients, old(lookup(name).clients)) : fresh(result0) && fresh(result0.clients))
 //@   ensures failed: !isnil(result1) ==> result0 == nil
 //@
-//@ func (*Description).GetPermission
-//@   trusted
-//@   why verified separately for C08 (not yet); here only: no effect on the group
-//@   modifies nothing
-//@
 //@ func autoLockKick
 //@   props C10 C13
 //@   requires nonnil: g != nil && g.description != nil
@@ -273,7 +268,8 @@ package group
 //@   ensures unlocked: !held(g.mu)
 //@
 //@ func (*Description).userExists
-//@   props C13 C08
+//@   safe
+//@   props C13 C08 C09 C12
 //@   requires nonnil: desc != nil
 //@   modifies nothing
 //@   ensures spec: result == has(desc.Users, username)
@@ -553,3 +549,134 @@ package group
 //@   props C17 C12
 //@   modifies nothing
 //@   invariant loop 1 own: fresh(users)
+//@
+//@ -- ------------------------------------------------------------------ password login (C08)
+//@ global login-errors-set: ErrBadPassword != nil && ErrNoSuchUsername != nil && ErrUsernameRequired != nil && ErrDuplicateUsername != nil
+//@
+//@ -- two Go strings are equal iff they have the same length and the same bytes
+//@ spec streq(a string, b string) bool = len(a) == len(b) && (forall i int :: 0 <= i && i < len(a) ==> a[i] == b[i])
+//@
+//@ func ConstantTimeCompare
+//@   safe
+//@   pure
+//@   props C08 C12
+//@   modifies nothing
+//@   -- C08: true exactly for the same string (whatever the lengths: the copy is padded or truncated, the length test decides)
+//@   ensures exact: result == streq(a, b)
+//@
+//@ func (Password).Match
+//@   safe
+//@   pure
+//@   props C08 C12
+//@   modifies nothing
+//@   -- C08: an entry without a password never matches; a wildcard password always does
+//@   ensures empty-never: p.Type == "" ==> !result0 && result1 == nil
+//@   ensures wildcard-always: p.Type == "wildcard" ==> result0 && result1 == nil
+//@   -- C08: a plaintext password matches exactly itself
+//@   ensures plain: p.Type == "plain" && p.Key != nil ==> result0 == streq(pw, *p.Key) && result1 == nil
+//@   ensures plain-nokey: p.Type == "plain" && p.Key == nil ==> !result0 && result1 != nil
+//@   ensures unknown-type: p.Type != "" && p.Type != "plain" && p.Type != "wildcard" && p.Type != "pbkdf2" && p.Type != "bcrypt" ==> !result0 && result1 != nil
+//@   -- C08: an error is never a match
+//@   ensures error-no-match: result1 != nil ==> !result0
+//@
+//@ spec pwmatch(p Password, pw string) bool = first(call("(group.Password).Match", p, pw))
+//@
+//@ func (*Description).getPasswordPermission
+//@   safe
+//@   pure
+//@   reads all
+//@   props C08 C12
+//@   requires nonnil: desc != nil
+//@   modifies nothing
+//@   ensures needs-username: creds.Username == nil ==> result1 != nil
+//@   -- C08: a user with an entry is admitted iff THAT entry's password matches (the wildcard is not consulted), with that entry's permissions
+//@   ensures named: creds.Username != nil && has(desc.Users, *creds.Username) ==>
+//@        (result1 == nil) == pwmatch(desc.Users[*creds.Username].Password, creds.Password)
+//@        && (result1 == nil ==> result0.name == desc.Users[*creds.Username].Permissions.name && same(result0.permissions, desc.Users[*creds.Username].Permissions.permissions))
+//@   -- C08: a user without an entry is admitted iff there is a wildcard user whose password matches, with the wildcard's permissions
+//@   ensures wildcard: creds.Username != nil && !has(desc.Users, *creds.Username) ==>
+//@        (result1 == nil) == (desc.WildcardUser != nil && pwmatch(desc.WildcardUser.Password, creds.Password))
+//@        && (result1 == nil ==> result0.name == desc.WildcardUser.Permissions.name && same(result0.permissions, desc.WildcardUser.Permissions.permissions))
+//@   -- C08: a refusal grants nothing
+//@   ensures refused-empty: result1 != nil ==> result0.name == "" && isnil(result0.permissions)
+//@
+//@ -- the permissions of a role, and membership of a permission in a list
+//@ spec inlist(s []string, x string) bool = exists k int :: 0 <= k && k < len(s) && s[k] == x
+//@ spec addsrecord(p Permissions, desc *Description) bool = desc != nil && desc.AllowRecording && inlist(permissionsMap[p.name], "op") && !inlist(permissionsMap[p.name], "record")
+//@ spec addstoken(p Permissions, desc *Description) bool = desc != nil && desc.UnrestrictedTokens && inlist(permissionsMap[p.name], "present") && !inlist(permissionsMap[p.name], "token")
+//@
+//@ func (Permissions).Permissions
+//@   safe
+//@   ematch
+//@   props C08 C12
+//@   modifies nothing
+//@   invariant loop 1 range: -1 <= rangeindex && rangeindex < len(perms) && same(perms, permissionsMap[old(p.name)])
+//@   invariant loop 1 op: op == (exists k int :: 0 <= k && k <= rangeindex && perms[k] == "op")
+//@   invariant loop 1 present: present == (exists k int :: 0 <= k && k <= rangeindex && perms[k] == "present")
+//@   invariant loop 1 token: token == (exists k int :: 0 <= k && k <= rangeindex && perms[k] == "token")
+//@   invariant loop 1 record: record == (exists k int :: 0 <= k && k <= rangeindex && perms[k] == "record")
+//@   -- (proof steps: after the loop each flag says whether the role contains that permission)
+//@   proves flag-op: p.name != "" ==> op == inlist(permissionsMap[p.name], "op")
+//@   proves flag-present: p.name != "" ==> present == inlist(permissionsMap[p.name], "present")
+//@   proves flag-token: p.name != "" ==> token == inlist(permissionsMap[p.name], "token")
+//@   proves flag-record: p.name != "" ==> record == inlist(permissionsMap[p.name], "record")
+//@   uses grants: flag-
+//@   -- C08: an explicit permission list is returned as it is; a role yields exactly the role's permissions, preceded by
+//@   -- "token" and/or "record" under exactly the stated conditions (the predicate grants, one obligation per conjunct)
+//@   ensures grants: grants(p, desc, result)
+//@
+//@ -- what a (role or list) permission record grants in a group: the postcondition of Permissions.Permissions as one predicate
+//@ spec grants(p Permissions, desc *Description, r []string) bool =
+//@        (p.name == "" ==> same(r, p.permissions))
+//@     && (p.name != "" && !addsrecord(p, desc) && !addstoken(p, desc) ==> len(r) == len(permissionsMap[p.name]))
+//@     && (p.name != "" && addsrecord(p, desc) && !addstoken(p, desc) ==> len(r) == len(permissionsMap[p.name]) + 1)
+//@     && (p.name != "" && !addsrecord(p, desc) && addstoken(p, desc) ==> len(r) == len(permissionsMap[p.name]) + 1)
+//@     && (p.name != "" && addsrecord(p, desc) && addstoken(p, desc) ==> len(r) == len(permissionsMap[p.name]) + 2)
+//@     && (p.name != "" ==> (forall k int :: 0 <= k && k < len(permissionsMap[p.name]) ==> r[len(r) - len(permissionsMap[p.name]) + k] == permissionsMap[p.name][k]))
+//@     && (p.name != "" ==> (addstoken(p, desc) ==> r[0] == "token") && (addsrecord(p, desc) ==> r[addstoken(p, desc) ? 1 : 0] == "record"))
+//@
+//@ func validGroupName
+//@   trusted
+//@   why group.go: a function of the name only (path.Clean fixpoint); examined under C19
+//@   pure
+//@ func validUsername
+//@   safe
+//@   pure
+//@   props C19 C08
+//@   modifies nothing
+//@   ensures def: result == (username == "" || validGroupName(username))
+//@
+//@ extern token.Parse
+//@   why token/token.go: parses a stateful or signed token; no effect on the group layer (examined under C09)
+//@   modifies nothing
+//@   ensures one: (result0 != nil) == (result1 == nil)
+//@ iface token.Token.NeedsUsername
+//@   why token: a field test
+//@   modifies nothing
+//@ iface token.Token.Check
+//@   why token/stateful.go, token/jwt.go: validates scope, time window and audience; no effect on the group layer (examined under C09)
+//@   modifies nothing
+//@
+//@ spec gppok(desc *Description, creds ClientCredentials) bool = second(call("(*group.Description).getPasswordPermission", desc, creds)) == nil
+//@ spec gppperm(desc *Description, creds ClientCredentials) Permissions = first(call("(*group.Description).getPasswordPermission", desc, creds))
+//@
+//@ func (*Description).GetPermission
+//@   safe
+//@   props C08 C09 C10 C12
+//@   requires nonnil: desc != nil
+//@   modifies nothing
+//@   ensures neither: creds.Token == "" && creds.Username == nil ==> result2 != nil
+//@   ensures refused-empty: result2 != nil ==> result0 == "" && isnil(result1)
+//@   -- C08: a password login succeeds iff getPasswordPermission admits the credentials (its contract: the entry's password, or, only without
+//@   -- an entry, the wildcard user's) and the name is acceptable; under the name given; with exactly what the matched record grants in this group
+//@   ensures password-iff: creds.Token == "" && creds.Username != nil ==> (result2 == nil) == (gppok(desc, creds) && validUsername(*creds.Username))
+//@   ensures password-name: creds.Token == "" && result2 == nil ==> creds.Username != nil && result0 == *creds.Username
+//@   ensures password-grants: creds.Token == "" && result2 == nil ==> grants(gppperm(desc, creds), desc, result1)
+//@   -- C09: a token is checked against the group being joined, and grants exactly what the check returned;
+//@   -- the token's username wins, and a name chosen by the client never shadows a configured user
+//@   assert at call Check this-group: arg_group == groupname
+//@   proves token-checked: creds.Token != "" && result2 == nil ==> third(callresult("Check", 1)) == nil && second(callresult("Parse", 1)) == nil
+//@   proves token-perms: creds.Token != "" && result2 == nil ==> same(result1, second(callresult("Check", 1)))
+//@   proves token-name: creds.Token != "" && result2 == nil && first(callresult("Check", 1)) != "" ==> result0 == first(callresult("Check", 1))
+//@   proves token-no-shadow: creds.Token != "" && result2 == nil && first(callresult("Check", 1)) == "" && creds.Username != nil ==> result0 == *creds.Username && !has(desc.Users, *creds.Username)
+//@   ensures valid-name: result2 == nil ==> validUsername(result0)
